@@ -47,7 +47,7 @@ for name, f, a, b in M:
     p=os.path.join(WT,f); t=open(p).read()
     assert t.count(a)==1, (name, t.count(a))
     open(p,"w").write(t.replace(a,b))
-    env=dict(os.environ, VF_REPO=WT, VF_WORKERS="6", PYTHONDONTWRITEBYTECODE="1")
+    env=dict(os.environ, VF_REPO=WT, VF_WORKERS="4", PYTHONDONTWRITEBYTECODE="1")
     r=subprocess.run(["/venv/bin/python","-m","vf","check","C04","--tier","quick","--quiet"],cwd="/verif",env=env,capture_output=True,text=True)
     ev=json.load(open("/verif/evidence/C04.json"))
     print(name, "-> exit", r.returncode, "wall", ev["wall_s"])
